@@ -65,3 +65,74 @@ Definition step (s : st) (o : op) : st :=
 Definition run (ops : list op) : st := fold_left step ops init.
 
 Definition to (d : Z) (l : list pkt) : list pkt := filter (fun p => Z.eqb (dst p) d) l.
+
+(* ---- non-transient send errors (they propagate out of serviceTxPkts) ------------------------------
+   outcome of one handler.send: sent, transient destination error, or a NON-transient socket.error
+   (EMSGSIZE, EPERM, ...) which _serviceOneTxPkt re-raises.  The packet whose send raised is gone with the
+   exception (it was popped); serviceTxPkts' finally clause puts the packets deferred so far back IN FRONT of
+   the not yet attempted rest of the queue, so nothing else is lost or overtaken. *)
+Inductive outcome := OSent | OTrans | OFatal.
+
+(* returns (queue after the pass, sent in this pass, blocked dests, Some p when the send of p raised) *)
+Fixpoint passx (q laters : list pkt) (blk : list Z) (orc : list outcome) (sent : list pkt)
+  : list pkt * list pkt * list Z * option pkt :=
+  match q with
+  | [] => (laters, sent, blk, None)
+  | p :: q' =>
+      if memZ (dst p) blk then passx q' (laters ++ [p]) blk orc sent
+      else match orc with
+           | OTrans :: orc' => passx q' (laters ++ [p]) (blk ++ [dst p]) orc' sent
+           | OSent :: orc' => passx q' laters blk orc' (sent ++ [p])
+           | OFatal :: _ => (laters ++ q', sent, blk, Some p)
+           | [] => passx q' laters blk [] (sent ++ [p])
+           end
+  end.
+
+Definition servicex (q : list pkt) (orc : list outcome) : list pkt * list pkt * option pkt :=
+  let '(q', s, _, r) := passx q [] [] orc [] in (q', s, r).
+
+Definition oncex (q : list pkt) (o : outcome) : list pkt * list pkt * option pkt :=
+  match q with
+  | [] => ([], [], None)
+  | p :: q' => match o with
+               | OSent => (q', [p], None)
+               | OTrans => (p :: q', [], None)
+               | OFatal => (q', [], Some p)
+               end
+  end.
+
+Definition is_trans (o : outcome) : bool := match o with OTrans => true | _ => false end.
+Definition is_fatal (o : outcome) : bool := match o with OFatal => true | _ => false end.
+
+Inductive opx := XEnq (p : pkt) | XService (orc : list outcome) | XOnce (o : outcome).
+
+(* xdropped: packets whose send raised a non-transient error, in the order that happened *)
+Record stx := { xq : list pkt; xlog : list pkt; xqueued : list pkt; xdropped : list pkt }.
+Definition initx : stx := {| xq := []; xlog := []; xqueued := []; xdropped := [] |}.
+
+Definition optl (r : option pkt) : list pkt := match r with Some p => [p] | None => [] end.
+
+Definition stepx (s : stx) (o : opx) : stx :=
+  match o with
+  | XEnq p => {| xq := xq s ++ [p]; xlog := xlog s; xqueued := xqueued s ++ [p]; xdropped := xdropped s |}
+  | XService orc => let '(q', sent, r) := servicex (xq s) orc in
+                    {| xq := q'; xlog := xlog s ++ sent; xqueued := xqueued s; xdropped := xdropped s ++ optl r |}
+  | XOnce o => let '(q', sent, r) := oncex (xq s) o in
+               {| xq := q'; xlog := xlog s ++ sent; xqueued := xqueued s; xdropped := xdropped s ++ optl r |}
+  end.
+
+Definition runx (ops : list opx) : stx := fold_left stepx ops initx.
+
+(* an extended history without non-transient errors, seen as a history of the basic machine *)
+Definition op_of (o : opx) : op :=
+  match o with
+  | XEnq p => Enq p
+  | XService orc => Service (map is_trans orc)
+  | XOnce o => Once (is_trans o)
+  end.
+Definition fatal_free (o : opx) : bool :=
+  match o with
+  | XEnq _ => true
+  | XService orc => negb (existsb is_fatal orc)
+  | XOnce o => negb (is_fatal o)
+  end.
